@@ -507,7 +507,7 @@ pub fn worker_main(check: &mut dyn Check, ctx: &Ctx, trace: bool) {
     // this worker (abort: "memory allocation of … failed") long before the machine runs out of memory. Not under the
     // sanitizer builds, which reserve terabytes of address space for their shadow memory.
     if matches!(ctx.flavour, Flavour::Rel | Flavour::Dbg) {
-        let lim: [u64; 2] = [12 << 30, 12 << 30];
+        let lim: [u64; 2] = [3 << 30, 3 << 30];
         unsafe {
             setrlimit(9 /* RLIMIT_AS */, &lim);
         }
